@@ -2,7 +2,7 @@
    the initial scenes (scripts of public-API calls, replayed step by step on
    both sides, so the scenes themselves are compared too) and the digest of a
    whole trace.  harness/vh/edit_common.py holds the mirrored scripts. *)
-From PsdV Require Import Base.Prelude Edit.Model.
+From PsdV Require Import Base.Prelude Edit.Model Edit.Persist.
 From Coq Require Import Uint63.
 Open Scope Z_scope.
 
@@ -68,3 +68,14 @@ Definition pylist_case (c : Z * (list Z * (Z * Z))) : list Z :=
   | 3 => match index_of x l with None => [-1] | Some k => del_nth l k end                 (* l.remove(x) *)
   | _ => match index_of x l with None => [-1] | Some k => [Z.of_nat k] end                (* l.index(x) *)
   end.
+
+(* the record list _build_record_tree produces for every document of the final state
+   (Edit.Persist.flat_l): per document [-1; id], then 1 = bounding divider, 2 j = record of group j, 3 j = leaf j *)
+Definition rcd_code (r : rcd) : list Z :=
+  match r with RDiv => [1] | RGrp j => [2; j] | RLeaf j => [3; j] end.
+Definition flat_case_v (v : cfg) (c : Z * list op) : list Z :=
+  let s := run (empty_state_v v) (init (fst c) ++ snd c) in
+  if corrupt s then [-9] else
+  flat_map (fun d => if kind s d =? KDoc
+                     then (-1) :: d :: flat_map rcd_code (flat_l (fun j => kind s j =? KGroup) (kids_of s d))
+                     else []) (all_ids s).
